@@ -181,6 +181,14 @@ class Forcing:
         f = self.forced(e)
         if f is not None:
             return f
+        if e[0] == "call" and e[1] in ("std::ops::Range::contains", "core::ops::Range::contains") and len(e[2]) == 2:
+            # `(a..b).contains(&x)` is the conjunction `a <= x && x < b` (q.range_atoms lists the two halves as atoms ('rc', half, call))
+            lo, hi = self.atom(("rc", "lo", e)), self.atom(("rc", "hi", e))
+            if lo == 0 or hi == 0:
+                return C(0)
+            if lo == 1 and hi == 1:
+                return C(1)
+            return TOP
         fn = t["fn"]
         if fn is None:
             return TOP
@@ -304,6 +312,22 @@ class Forcing:
                         nxt = []
                     else:
                         nxt = b.succs(bb)
+                        if e[0] != "discr" and t.get("discr_ty") not in (None, "bool", "isize"):
+                            # forced integer-arm atoms ('isint', x, K) (q.int_switch_atoms): 1 takes arm K, 0 excludes it
+                            take, drop_ = None, set()
+                            for val, target in t["targets"]:
+                                fv = self.atom(("isint", e, int(val)))
+                                if fv == 1:
+                                    take = target
+                                elif fv == 0:
+                                    drop_.add(target)
+                            if take is not None:
+                                nxt = [take]
+                            elif drop_:
+                                keep = {tg for v_, tg in t["targets"] if tg not in drop_}
+                                if t["otherwise"] is not None:
+                                    keep.add(t["otherwise"])
+                                nxt = [x_ for x_ in nxt if x_ in keep]
                         if e[0] == "discr":
                             # forced variant atoms ('isvar', x, i, ..): 1 takes arm i, 0 excludes it
                             take, drop_ = None, set()
